@@ -252,6 +252,14 @@ func C06(w *sim.World, in *Info) (vs []V, nWrites int) {
 			}
 			why := MustNotStore(c)
 			if why == "" {
+				// the client's own request forbids storing whatever the cache fetches
+				// on its behalf (e.g. a background validation started by it)
+				if cex := w.Exchange(c.Exch); cex != nil && SpecMethod(cex.Spec) == "GET" &&
+					oracle.ParseCC(http.Header(cex.Spec.Header).Values("Cache-Control")).Has("no-store") {
+					why = "client-request-no-store"
+				}
+			}
+			if why == "" {
 				continue
 			}
 			if why == "status-304" && s != bodySer {
